@@ -106,7 +106,7 @@ def oracleC03 (c : TCase) : Verdict :=
 structure C04St where
   left : Nat
   total : Nat
-  finished : Bool := false   -- what the rule of the property implies: exact accounting reached and signalled
+  finished : Bool := false   -- exact accounting reached AND the end signalled (an empty write accepted at 0 left): from here on it must be reported
   fail : Option String := none
   needFull : Bool := false
 
@@ -143,11 +143,11 @@ def oracleC04 (c : TCase) : Verdict :=
             match outBytes? o with
             | none =>
               -- hashed output: length and hash must be those of the input prefix
-              if o == toHexOut false (input.take k) then { s with left := s.left - k, finished := s.finished || s.left - k == 0 }
+              if o == toHexOut false (input.take k) then { s with left := s.left - k, finished := s.finished || (input.isEmpty && s.left == 0) }
               else { s with needFull := true }
             | some out =>
               if out != input.take k then { s with fail := some s!"output is not the consumed input prefix: {t.raw}" }
-              else { s with left := s.left - k, finished := s.finished || s.left - k == 0 }
+              else { s with left := s.left - k, finished := s.finished || (input.isEmpty && s.left == 0) }
         | ["fault", e] =>
           -- "is refused": the property does not say with which error
           if !e.startsWith "api:" then { s with fail := some s!"panic: {t.raw}" } else
@@ -158,7 +158,7 @@ def oracleC04 (c : TCase) : Verdict :=
       | [_, n], ["unit"] =>
         (match n.toNat? with
          | some d => if d > s.left then { s with fail := some s!"direct write beyond the remaining length accepted: {t.raw}" }
-                     else { s with left := s.left - d, finished := s.finished || s.left - d == 0 }
+                     else { s with left := s.left - d }
          | none => s)
       | [_, n], ["fault", _] =>
         (match n.toNat? with
@@ -168,13 +168,15 @@ def oracleC04 (c : TCase) : Verdict :=
     | "canproceed" =>
       match t.res with
       | ["bool", b] =>
+        -- "finished only when exactly N bytes have been accounted for, which always becomes true once N is
+        -- reached and the caller signals the end": true requires 0 left; false is wrong once the end was signalled
         if (b == "true") && s.left != 0 then { s with fail := some s!"finished with {s.left} bytes unaccounted: {t.raw}" }
-        else if (b == "true") != s.finished then { s with fail := some s!"finished={b}, expected {s.finished} (left={s.left}): {t.raw}" }
+        else if (b == "false") && s.finished then { s with fail := some s!"not finished although all {N} bytes are accounted for and the end was signalled: {t.raw}" }
         else s
       | _ => s
     | "proceed" | "proceed!" =>
       match t.res with
-      | "state" :: "recvResponse" :: _ => if s.finished then s else { s with fail := some s!"advanced with {s.left} bytes unaccounted: {t.raw}" }
+      | "state" :: "recvResponse" :: _ => if s.left == 0 then s else { s with fail := some s!"advanced with {s.left} bytes unaccounted: {t.raw}" }
       | "none" :: _ => if !s.finished then s else { s with fail := some s!"did not advance although finished: {t.raw}" }
       | _ => s
     | "maxin" =>
